@@ -400,17 +400,26 @@ type Pool struct {
 	New   func() interface{}
 	epoch uint64
 	items []interface{}
+	in    map[uintptr]bool // addresses of the pointer items that are in the pool
+}
+
+func ptrOf(x interface{}) uintptr {
+	if v := reflect.ValueOf(x); x != nil && v.Kind() == reflect.Ptr && !v.IsNil() {
+		return v.Pointer()
+	}
+	return 0
 }
 
 // Get takes an item.
 func (p *Pool) Get() interface{} {
 	if W != nil && p.epoch != W.Epoch {
 		p.epoch = W.Epoch
-		p.items = nil
+		p.items, p.in = nil, nil
 	}
 	if n := len(p.items); n > 0 {
 		x := p.items[n-1]
 		p.items = p.items[:n-1]
+		delete(p.in, ptrOf(x))
 		return x
 	}
 	if p.New != nil {
@@ -423,7 +432,19 @@ func (p *Pool) Get() interface{} {
 func (p *Pool) Put(x interface{}) {
 	if W != nil && p.epoch != W.Epoch {
 		p.epoch = W.Epoch
-		p.items = nil
+		p.items, p.in = nil, nil
+	}
+	// an object that is in the pool already would be handed to two later owners: whoever puts it back a second time
+	// did not own it any more (pointer identity)
+	if a := ptrOf(x); a != 0 && W != nil && !NoPoison {
+		if p.in[a] {
+			Failf("pool", "a %T was returned to its sync.Pool twice without having been taken out in between: two later owners will share it (lost, duplicated or foreign content)", x)
+			return
+		}
+		if p.in == nil {
+			p.in = map[uintptr]bool{}
+		}
+		p.in[a] = true
 	}
 	poison(x)
 	p.items = append(p.items, x)
